@@ -2,7 +2,7 @@
 """Maintenance (never run by a registered check): turn a --dump-failures file into the explicit
 input lists of open known findings.  usage: mk_known.py <PID> <dump.json> <spec.json>
 spec: [{"slug":..., "site":..., "prefix": [id prefixes], "what":...}]"""
-import json, os, sys
+import json, os, re, sys
 pid, dump, spec = sys.argv[1:4]
 here = os.path.dirname(os.path.dirname(os.path.abspath(__file__)))
 pairs = json.load(open(dump))
@@ -11,7 +11,7 @@ kf = json.load(open(os.path.join(here, 'known_findings.json')))
 kf['findings'] = [e for e in kf['findings'] if not (e.get('property') == pid and e.get('status') == 'open' and e.get('generated'))]
 used = set()
 for sp in spec:
-    ids = sorted(i for s, i in pairs if s == sp['site'] and any(i.startswith(p) or p in i for p in sp['prefix']))
+    ids = sorted(i for s, i in pairs if s == sp['site'] and (any(i.startswith(p) or p in i for p in sp['prefix']) or any(re.search(r, i) for r in sp.get('regex', []))))
     used |= {(sp['site'], i) for i in ids}
     rel = 'known_findings/%s-%s.json' % (pid, sp['slug'])
     json.dump(ids, open(os.path.join(here, rel), 'w'), indent=0)
